@@ -1057,7 +1057,18 @@ def rule_rf1(ctx):
                 ctext = dotted(n.value)
     both = ("_out_dict" in ctext or "neighbors_out" in ctext) and (
         "_in_dict" in ctext or "neighbors_in" in ctext)
-    if not both:
+    import re as _re
+    member = _re.search(r"not in \w+\._(in|out)_dict\b(?!\[)", ctext) or \
+        _re.search(r"\bin \w+\._(in|out)_dict\b(?!\[)", ctext)
+    if both and member:
+        r.violation(
+            "RF1", f"{f.fq}|membership", loc(f, cond), ctext[:140],
+            "the dead-end test checks whether the vertex is a KEY of a view "
+            "instead of whether its cell is empty: after a deletion the "
+            "neighbour's cell exists but is empty, so a vertex that just "
+            "lost its last incoming (outgoing) edge is kept",
+            instance=inst + ":condition")
+    elif not both:
         r.violation(
             "RF1", f"{f.fq}|condition", loc(f, cond), ctext[:140],
             "the dead-end test does not look at both views: vertices "
